@@ -101,6 +101,11 @@ CHECKS = {
          "Held on 309 cases / ~3300 requests (quick) and 1950 cases / ~156000 requests (thorough): schema validations, header checks, offer/usage comparisons (method, URL, headers), ref-name and path byte equality for hostile names, cursors and limits, 240 response corruptions (no panic, following requests conform, no un-offered URL used), unsupported hash_algo never acted upon.",
          "ref is optional per the docs (ref oddities such as HEAD or a raw sha are not flagged); unlock URL compared on decoded paths; lock paths that are not valid UTF-8 are not generated (JSON cannot carry them).",
          "DESIGN.md §5 C18"),
+ "C16": ("exploration",
+         "runtime monitor: two users (two clones, X-Verif-User header) run seeded sequences of lock/unlock/locks/checkout/commit/merge/push against the fake server's lock API with scripted answers (409, 403, 404/501, 5xx, pagination); oracles at every quiescent point: push verdict vs the server's lock table at verify time, write bits vs a sequence-defined expected cache, `locks --local/--cached --json` vs that cache, unlock guard vs uncommitted changes; race-instrumented pushes",
+         "Held on 40 (quick) / 1200 (thorough) sequences of length 1-30: ~480 commands, ~30 judged pushes, ~140 write-bit checks, ~730 cache comparisons and 16 unlock-guard checks per quick run; every 4th case pushes with the -race binary (reports touching lockVerifier count). 3 recorded known findings.",
+         "Files not covered by a flag-fixing command since the last ownership change are not judged (a client cannot know about a foreign change); after a verified push both the unchanged and the replaced cache are accepted; locksverify unset is warning-only and not judged.",
+         "DESIGN.md §5 C16"),
 }
 
 NOT_YET = {}
